@@ -31,7 +31,7 @@ theorem formatChar_cases (f : FormatSpec) (ch : Int) :
 
 /-- assertions a formatter can raise -/
 def AssertClass (w : String) : Prop :=
-  w = charPaddingMsg ∨ w = floatBufferMsg ∨ w = "Your libc doesn't support reporting format size"
+  w = charPaddingMsg ∨ w = libcSizeMsg
 
 /-- every non-floating formatter returns output or the char-padding assertion; the floating-point
     formatter is a parameter of the statement -/
@@ -62,7 +62,7 @@ theorem formatType_sat_core (a : Arg) (f : FormatSpec) (A : String → Prop) (hc
   | nullStr => simp [formatType, Sat]
   | float r => simp only [formatType]; exact hfloat r rfl
 
-/-- every formatter returns output or one of three assertion messages; never `ub`, `oob`,
+/-- every formatter returns output or one of two assertion messages; never `ub`, `oob`,
     `stuck`, never an exception -/
 theorem formatType_sat_all (a : Arg) (f : FormatSpec) : Sat (fun _ => True) (fun _ => False) AssertClass (formatType a f) := by
   refine formatType_sat_core a f AssertClass (Or.inl rfl) ?_
@@ -71,22 +71,22 @@ theorem formatType_sat_all (a : Arg) (f : FormatSpec) : Sat (fun _ => True) (fun
   repeat' split
   all_goals simp [Sat, AssertClass]
 
-/-- with floating-point renderings that fit the 64-byte buffer, the only assertion left is the
-    documented one -/
-theorem formatType_sat (a : Arg) (f : FormatSpec) (hfl : a.FloatFits) :
+/-- when libc reports a size for every rendering (of whatever length), the only assertion left is
+    the documented one -/
+theorem formatType_sat (a : Arg) (f : FormatSpec) (hfl : a.LibcRenders) :
     Sat (fun _ => True) (fun _ => False) (· = charPaddingMsg) (formatType a f) := by
   refine formatType_sat_core a f _ rfl ?_
   intro r hr
   subst hr
   have h := hfl f.alwaysSigned (if f.precision ≥ 0 then some f.precision.toNat else none) f.floatClass
   simp only [formatFloat]
-  rw [if_neg (by omega), if_neg (by omega)]
+  rw [if_neg (by omega)]
   repeat' split
   all_goals simp [Sat]
 
 /-- the documented assertion is raised exactly when the character class meets a width or a pad
     character on an integer or character argument -/
-theorem formatType_assert_iff (a : Arg) (f : FormatSpec) (hfl : a.FloatFits) :
+theorem formatType_assert_iff (a : Arg) (f : FormatSpec) (hfl : a.LibcRenders) :
     (∃ w, formatType a f = .assertFail w) ↔
       (a.IsIntegral = true ∧ f.digitClass = .chr ∧ (f.minimumLength ≠ 0 ∨ f.pad ≠ 0)) := by
   have hc : ∀ ch, (∃ w, formatChar f ch = .assertFail w) ↔ (f.minimumLength ≠ 0 ∨ f.pad ≠ 0) := by
@@ -114,7 +114,7 @@ theorem formatType_assert_iff (a : Arg) (f : FormatSpec) (hfl : a.FloatFits) :
   | float r =>
     have h := hfl f.alwaysSigned (if f.precision ≥ 0 then some f.precision.toNat else none) f.floatClass
     simp only [formatType, formatFloat, Arg.IsIntegral]
-    rw [if_neg (by omega), if_neg (by omega)]
+    rw [if_neg (by omega)]
     repeat' split
     all_goals simp
 
